@@ -61,5 +61,28 @@ def t_cmdArgs(rep, ints):
     ])
 
 
+def t_stdin_ReadAll(rep, ints):
+    body = '''func TestVerifReplay(t *testing.T) {
+	verifCatch(t, "ReadAll", func() {
+		s := NewStdin()
+		s.Open()
+		s.Write([]byte("abcdef"))
+		s.Close()
+		p := make([]byte, 2)
+		n, _ := s.Read(p)
+		b, _ := s.ReadAll()
+		w, r := s.Stats()
+		if r != w { fmt.Printf("VERIF-REPRODUCED counters after Read(%d bytes)+ReadAll(%d bytes): written=%d read=%d (bRead overwritten, not accumulated)\\n", n, len(b), w, r) }
+		q := make([]byte, 16)
+		s.Open(); s.Close()
+		m, _ := s.Read(q)
+		if m > 0 { fmt.Printf("VERIF-REPRODUCED bytes %q handed out by ReadAll are delivered again by a later Read (buffer not drained)\\n", string(q[:m])) }
+	})
+}
+'''
+    return "builtins/pipes/streams", "streams", "", body
+
+
 def install(T, g):
+    T["builtins/pipes/streams.(*Stdin).ReadAll"] = t_stdin_ReadAll
     T["builtins/core/management.cmdArgs"] = t_cmdArgs
